@@ -12,12 +12,19 @@ Observation lines (compared with the model's, see ocaml/drv_eval.ml):
 import itertools
 import random
 
-from common import hexs, exc_line, sexp_parse
+from common import hexs, sexp_parse
+import common
 import docenc
 import oracles
 
 _ENV = {}
 MODES = ("req", "opt", "exists")
+
+
+def exc_line(e):
+    """common.exc_line, with the class names the model's wire format uses."""
+    line = common.exc_line(e)
+    return "(raise (crash NotImplemented))" if line == "(raise (crash NotImplementedError))" else line
 
 
 def init_worker():
@@ -30,6 +37,16 @@ def init_worker():
     import c14
     c14.init_worker()
     log = ConsolePrinter(SimpleNamespace(quiet=True, verbose=False, debug=False))
+    # the node-creating branches of _get_optional_nodes all go through Nodes.build_next_node (or change a
+    # set of the document); count the calls so that creation on a virtual list is observed too
+    _orig_bnn = Nodes.build_next_node
+
+    def _counting_bnn(*a, **k):
+        _ENV["creations"] = _ENV.get("creations", 0) + 1
+        return _orig_bnn(*a, **k)
+    if not getattr(Nodes, "_verif_wrapped", False):
+        Nodes.build_next_node = staticmethod(_counting_bnn)
+        Nodes._verif_wrapped = True
     _ENV.update(Parsers=Parsers, Processor=Processor, YAMLPath=YAMLPath, NodeCoords=NodeCoords, log=log,
                 SearchTerms=SearchTerms, CollectorTerms=CollectorTerms, SearchKeywordTerms=SearchKeywordTerms,
                 PathSearchMethods=PathSearchMethods, Nodes=Nodes, seg_line=c14.seg_line,
@@ -94,8 +111,14 @@ class LoadedDoc:
         self.nodes = []
         all_nodes(self.data, self.nodes)
         self.scalars = [n for n in self.nodes if not is_container(n)]
-        self.nstr = "(%s)" % " ".join("(i%d %s)" % (self.enc.oids[id(n)], hexs(str(n)))
-                                      for n in self.nodes if is_container(n))
+        ents = []
+        for n in self.nodes:
+            if is_container(n):
+                try:
+                    ents.append("(i%d %s)" % (self.enc.oids[id(n)], hexs(str(n))))
+                except RecursionError:
+                    pass      # str() of a very deep container: the real code cannot compute it either
+        self.nstr = "(%s)" % " ".join(ents)
         # str(typed haystack) of every node, for the regex table
         self.hay_texts = []
         seen = set()
@@ -177,6 +200,7 @@ def observe_one(ld, path, mode):
     before = ld.sexp
     exc = None
     res = None
+    E["creations"] = 0
     try:
         if mode == "exists":
             res = proc.exists(path)
@@ -187,8 +211,8 @@ def observe_one(ld, path, mode):
     except Exception as e:  # noqa
         exc = e
     after = ld.snapshot()
-    if after != before:
-        return "(mutates)", True
+    if after != before or E["creations"]:
+        return "(mutates)", after != before
     if exc is not None:
         return exc_line(exc), False
     if mode == "exists":
@@ -420,36 +444,117 @@ def deep_doc(n, kind):
 def gen_cases(tier, seed, with_collectors=True):
     """Yield cases (doc, [paths])."""
     thorough = tier == "thorough"
+    rng = random.Random(seed)
     vocab = seg_vocab(True)
     vocab_small = seg_vocab(False)
     one = [join_dot([s]) for s in vocab]
-    # 1. every special / small document x every 1-segment path (both notations where they differ)
-    docs = list(SPECIAL_DOCS) + list(small_docs(4 if thorough else 3))
     onesl = [to_slash([s]) for s in vocab if s[1]]
     colls = COLLECTORS if with_collectors else []
-    for d in docs:
+    # 1. every special document and every tree of <= 2 (quick) / 3 (thorough) nodes x every
+    #    1-segment path (both notations) and every collector expression; 3-node trees (quick) /
+    #    4-node trees (thorough) x a sample of them
+    full = list(SPECIAL_DOCS) + list(small_docs(3 if thorough else 2))
+    for d in full:
         yield (d, one)
         yield (d, onesl + colls)
-    # 2. special docs x every 2-segment path over the small vocabulary
-    rng = random.Random(seed)
+    nxt = [d for d in small_docs(4 if thorough else 3)][len(list(small_docs(3 if thorough else 2))):]
+    for d in nxt:
+        yield (d, rng.sample(one, 400 if thorough else 120) + rng.sample(onesl + colls, 30 if thorough else 10))
+    # 2. special docs x every (thorough) / sampled (quick) 2-segment path over the small vocabulary
     two = [join_dot([s, t]) for s in vocab_small for t in vocab_small]
     twos = [to_slash([s, t]) for s in vocab_small for t in vocab_small]
-    sample_docs = list(SPECIAL_DOCS) + [d for d in small_docs(3)]
-    for d in sample_docs:
-        k = len(two) if thorough else 600
-        yield (d, rng.sample(two, min(k, len(two))))
+    for d in list(SPECIAL_DOCS):
+        k = len(two) if thorough else 1500
+        for part in chunk_list(rng.sample(two, min(k, len(two))), 800):
+            yield (d, part)
         yield (d, rng.sample(twos, min(k // 3, len(twos))))
-    # 3. small docs x sampled 2-segment paths over the rich vocabulary
+    for d in small_docs(3):
+        yield (d, rng.sample(two, 400 if thorough else 40) + rng.sample(twos, 100 if thorough else 10))
+    # 3. 4- and 5-node trees x sampled 2-segment paths over the rich vocabulary
     for d in small_docs(5 if thorough else 4):
-        parts = [join_dot([rng.choice(vocab), rng.choice(vocab)]) for _ in range(12 if thorough else 4)]
+        if not thorough and rng.random() < 0.5:
+            continue
+        parts = [join_dot([rng.choice(vocab), rng.choice(vocab)]) for _ in range(8 if thorough else 4)]
         yield (d, parts)
     # 4. random larger documents x random longer paths
-    nrand = 12000 if thorough else 1500
+    nrand = 15000 if thorough else 2500
     for _ in range(nrand):
         d = random_doc(rng)
         paths = [random_path(rng, vocab, 5) for _ in range(12)]
         yield (d, paths)
-    # 5. deep documents
+    # 5. deep documents (RecursionError must not surface)
     for n in (50, 200, 400):
         for kind in ("seq", "map", "mix"):
             yield (deep_doc(n if kind != "mix" else n // 2, kind), ["**", "a", "[0]", "**.a", "**[.=1]", "*", "a.**"])
+
+
+def chunks_by_weight(cases, budget=2500):
+    """Group cases into chunks of roughly `budget` paths."""
+    buf, w = [], 0
+    for c in cases:
+        buf.append(c)
+        w += len(c[1])
+        if w >= budget:
+            yield buf
+            buf, w = [], 0
+    if buf:
+        yield buf
+
+
+# ---------------------------------------------------------------- domain helpers for the judges
+def scalar_operands(doc, path, mode):
+    """True when every node selected by every collector operand evaluated during this query is a
+    scalar (C15: 'collectors limited to operands selecting scalars').  Instrumented re-run."""
+    E = _ENV
+    from yamlpath.enums import PathSegmentTypes
+    state = {"nonscalar": False}
+
+    def has_container(u):
+        if isinstance(u, list) and not (id(u) in ids):
+            return any(has_container(x) for x in u)
+        return is_container(u)
+
+    data = load(doc)
+    nodes = []
+    all_nodes(data, nodes)
+    ids = set(id(n) for n in nodes)
+
+    class P(E["Processor"]):
+        def _get_required_nodes(self, data, yaml_path, depth=0, **kw):
+            relay = kw.get("relay_segment")
+            watch = (depth == 0 and relay is not None and relay[0] is PathSegmentTypes.COLLECTOR)
+            for nc in super()._get_required_nodes(data, yaml_path, depth, **kw):
+                if watch and has_container(E["NodeCoords"].unwrap_node_coords(nc)):
+                    state["nonscalar"] = True
+                yield nc
+
+    proc = P(E["log"], data)
+    try:
+        if mode == "exists":
+            proc.exists(path)
+        else:
+            list(proc.get_nodes(path, mustexist=(mode == "req")))
+    except Exception:  # noqa
+        pass
+    return not state["nonscalar"]
+
+
+def collector_then_text(path, depth=0):
+    """A COLLECTOR-typed segment that carries no collector terms: text glued to a closing parenthesis
+    ('(a)b'); known finding F25."""
+    E = _ENV
+    from yamlpath.enums import PathSegmentTypes
+    if depth > 6:
+        return False
+    try:
+        segs = list(E["YAMLPath"](path)._parse_path(True))
+    except Exception:  # noqa
+        return False
+    for (t, a) in segs:
+        if t is PathSegmentTypes.COLLECTOR and not isinstance(a, E["CollectorTerms"]):
+            return True
+        if isinstance(a, E["CollectorTerms"]) and collector_then_text(a.expression, depth + 1):
+            return True
+        if isinstance(a, E["SearchTerms"]) and collector_then_text(a.attribute, depth + 1):
+            return True
+    return False
